@@ -55,6 +55,7 @@ func (fs *FS) Create(dir string, name string, size uint64) (types.WritableFile, 
 	if err != nil {
 		return nil, err
 	}
+	vhook("fs.create", name)
 	// We just created the file. Preallocate it's size.
 	if size > 0 {
 		if size > math.MaxInt32 {
@@ -93,6 +94,7 @@ func (fs *FS) Delete(dir string, name string) error {
 	if err := os.Remove(filepath.Join(dir, name)); err != nil {
 		return err
 	}
+	vhook("fs.unlink", name)
 	// Make sure parent directory metadata is fsynced too before we call this
 	// "done".
 	return syncDir(dir)
@@ -120,6 +122,7 @@ func syncDir(dir string) error {
 		return err
 	}
 	err = f.Sync()
+	vhook("fs.fsync.dir", err)
 	closeErr := f.Close()
 	if err != nil {
 		return err
